@@ -15,6 +15,7 @@ let rowids : int list ref = ref []      (* boundary-type matrices: row identifie
 let case_name = ref ""
 let cmdno = ref 0
 let last_bars : (int * int * int) list option ref = ref None   (* bars validated at the last DUMP, as positions *)
+let swapped = ref false      (* a vine swap / maximal-cell removal happened in this case: R is no longer the standard reduction *)
 let pending_swap : (int * bool option * (int * int * int) list option) option ref = ref None
 
 let zp () = z_of_int !p
@@ -165,6 +166,13 @@ let check_dump (lines : string list) : string list =
          let f = dense_of_int_cols n (List.rev !ucols) in
          let ft = transpose nn f in
          let good g = check_any (zp ()) nn d r g in
+         (* algorithm model: without swaps the implementation runs the standard left-to-right reduction, whose R is
+            determined column by column; compare it exactly with the model's (ReduceExec.reduce) *)
+         if not !swapped then begin
+           let (r0, _) = reduce (zp ()) nn d in
+           if r0 = r then ok "R equals the standard reduction (algorithm model)"
+           else fail "MODEL R differs from the standard left-to-right reduction of the algorithm model"
+         end;
          if good f && check_upper (zp ()) nn f then ok "R,U identities"
          else if good ft && check_upper (zp ()) nn ft then ok "R,U identities (factor stored transposed)"
          else if not (check_reduced (zp ()) nn r) then fail "R is not reduced (two non-zero columns share their lowest entry)"
@@ -172,7 +180,12 @@ let check_dump (lines : string list) : string list =
        end else begin
          if not (check_reduced (zp ()) nn r) then fail "R is not reduced (two non-zero columns share their lowest entry)"
          else if lows (zp ()) nn r <> canon_lows then fail "lows of R differ from the canonical pairing"
-         else ok "R reduced with canonical lows"
+         else ok "R reduced with canonical lows";
+         if not !swapped then begin
+           let (r0, _) = reduce (zp ()) nn d in
+           if r0 = r then ok "R equals the standard reduction (algorithm model)"
+           else fail "MODEL R differs from the standard left-to-right reduction of the algorithm model"
+         end
        end
      end);
   List.rev !out
@@ -200,8 +213,8 @@ let () =
       let (ans, next) = answers !i in
       let failed_cmd = List.exists (fun a -> a = "UNSUPPORTED" || (String.length a >= 3 && String.sub a 0 3 = "EXC") || (String.length a >= 5 && String.sub a 0 5 = "CRASH")) ans in
       (match cmd with
-       | "CASE" :: rest -> cmdno := 0; case_name := String.concat " " rest; cells := []; rowids := []; last_bars := None; emit ("CASE " ^ !case_name)
-       | ["NEW"; pp] -> p := int_of_string pp; cells := []; rowids := []; last_bars := None
+       | "CASE" :: rest -> cmdno := 0; swapped := false; case_name := String.concat " " rest; cells := []; rowids := []; last_bars := None; emit ("CASE " ^ !case_name)
+       | ["NEW"; pp] -> swapped := false; p := int_of_string pp; cells := []; rowids := []; last_bars := None
        | "I" :: id :: dim :: b ->
          if failed_cmd then emit ("FAIL insert_boundary: " ^ String.concat " | " ans)
          else begin
@@ -222,6 +235,7 @@ let () =
            cells := List.filteri (fun j _ -> j < n - 1) !cells; rowids := List.filteri (fun j _ -> j < n - 1) !rowids; last_bars := None
          end
        | ["RM"; k] ->
+         swapped := true;
          if List.mem "UNSUPPORTED" ans then emit "SKIP RM"
          else if failed_cmd then emit ("FAIL remove_maximal_cell: " ^ String.concat " | " ans)
          else begin
@@ -229,6 +243,7 @@ let () =
            cells := List.filteri (fun j _ -> j <> k) !cells; rowids := List.filteri (fun j _ -> j < n - 1) !rowids; last_bars := None
          end
        | [("VS" | "VZ"); k] ->
+         swapped := true;
          if List.mem "UNSUPPORTED" ans then emit "SKIP VS"
          else if failed_cmd then emit ("FAIL vine_swap: " ^ String.concat " | " ans)
          else begin
